@@ -31,8 +31,8 @@ func (repo *TxRepository) MarkUnsafe(ctx context.Context, txid bitcoin.Hash32) (
 		return true, nil
 	}
 
-	repo.unconfirmed[txid] = newUnconfirmedTx(false, true, false)
-	return true, nil
+	// Not in the unconfirmed set means it didn't match the filters, so it is not relevant.
+	return false, nil
 }
 
 // Mark an unconfirmed tx as being verified by a trusted node.
